@@ -5,6 +5,7 @@ import (
 	"fmt"
 	"math"
 	"os"
+	"os/exec"
 	"path/filepath"
 	"strings"
 	"unicode"
@@ -13,8 +14,6 @@ import (
 	"gopkg.in/yaml.v3"
 
 	"github.com/Vedant9500/WTF/internal/database"
-	"github.com/Vedant9500/WTF/internal/recovery"
-	"github.com/Vedant9500/WTF/internal/validation"
 )
 
 // ---------------------------------------------------------------------------
@@ -305,22 +304,8 @@ func runEntry(c *corpusT, s scenario, q string) (out runOut, first *runOut) {
 		out.hits = toHits(mdb.SearchWithOptionsAndMonitoring(q, o))
 		out.path = "cached"
 	case "cli":
-		// the search sub-command's flow: validated limit, universal search, last-resort recovery search
-		lim, err := validation.ValidateLimit(s.Limit)
-		if err != nil {
-			out.path = "rejected"
-			return
-		}
-		o.Limit = lim
-		res := c.db.SearchUniversal(q, o)
-		if len(res) == 0 {
-			rec, rerr := recovery.NewSearchRecovery().RecoverFromSearchFailure(q, nil, c.db)
-			if rerr == nil && len(rec) > 0 {
-				res = rec
-				out.path = "recovery"
-			}
-		}
-		out.hits = toHits(res)
+		// the real binary: wtf --database <file> --limit N --format json -v [platform flags] <query>
+		out = runCLI(c, s, q)
 	default:
 		fatal("unknown entry %q", s.Entry)
 	}
@@ -539,4 +524,114 @@ func mathBits(f float64) uint64 { return math.Float64bits(f) }
 func jsonLine(v interface{}) string {
 	b, _ := json.Marshal(v)
 	return string(b)
+}
+
+// ---------------------------------------------------------------------------
+// the real binary
+
+type cliItem struct {
+	Command string  `json:"command"`
+	Score   float64 `json:"score"`
+}
+
+var cliHome string
+
+func cliEnv() (home, cwd string) {
+	if cliHome == "" {
+		cliHome = filepath.Join(tmpDir(), "home")
+		os.MkdirAll(filepath.Join(cliHome, "cwd"), 0o755)
+	}
+	return cliHome, filepath.Join(cliHome, "cwd")
+}
+
+// runWtf runs the wtf binary in an isolated home and an empty working directory.
+func runWtf(args []string, extraEnv ...string) (stdout string, exit int, err error) {
+	bin := os.Getenv("VERIF_WTF")
+	if bin == "" {
+		fatal("VERIF_WTF is not set")
+	}
+	home, cwd := cliEnv()
+	cmd := exec.Command(bin, args...)
+	cmd.Dir = cwd
+	cmd.Env = append([]string{"HOME=" + home, "XDG_CONFIG_HOME=" + filepath.Join(home, ".config"), "PATH=/usr/bin:/bin", "NO_COLOR=1"}, extraEnv...)
+	var ob, eb strings.Builder
+	cmd.Stdout, cmd.Stderr = &ob, &eb
+	e := cmd.Run()
+	if e != nil {
+		if ee, ok := e.(*exec.ExitError); ok {
+			return ob.String() + eb.String(), ee.ExitCode(), nil
+		}
+		return "", -1, e
+	}
+	return ob.String(), 0, nil
+}
+
+func parseJSONBlock(out string) ([]cliItem, bool) {
+	i := strings.Index(out, "\n[")
+	if strings.HasPrefix(out, "[") {
+		i = -1
+	} else if i < 0 {
+		return nil, false
+	}
+	rest := out[i+1:]
+	j := strings.LastIndex(rest, "]")
+	if j < 0 {
+		return nil, false
+	}
+	var items []cliItem
+	if err := json.Unmarshal([]byte(rest[:j+1]), &items); err != nil {
+		return nil, false
+	}
+	return items, true
+}
+
+func runCLI(c *corpusT, s scenario, q string) (out runOut) {
+	args := []string{"search", "--database", c.file, "--limit", fmt.Sprint(s.Limit), "--format", "json", "-v"}
+	if s.AllPlat {
+		args = append(args, "--all-platforms")
+	}
+	if len(s.Plats) > 0 {
+		args = append(args, "--platform", strings.Join(s.Plats, ","))
+	}
+	if s.NoCross {
+		args = append(args, "--no-cross-platform")
+	}
+	args = append(args, "--", q)
+	so, code, err := runWtf(args)
+	if err != nil {
+		fatal("cannot run wtf: %v", err)
+	}
+	if code != 0 || strings.Contains(so, "panic:") || strings.Contains(so, "goroutine 1 [") {
+		out.panic = fmt.Sprintf("exit %d: %s", code, lastLines(so, 6))
+		return
+	}
+	if strings.Contains(so, "Search had issues, using") {
+		out.path = "recovery"
+	}
+	items, ok := parseJSONBlock(so)
+	if !ok {
+		return // no result block: nothing found (or query rejected)
+	}
+	byCmd := map[string]int{}
+	for i := range c.db.Commands {
+		if _, dup := byCmd[c.db.Commands[i].Command]; !dup {
+			byCmd[c.db.Commands[i].Command] = i
+		}
+	}
+	for _, it := range items {
+		if d, ok := byCmd[it.Command]; ok {
+			out.hits = append(out.hits, hit{&c.db.Commands[d], it.Score})
+		} else {
+			out.hits = append(out.hits, hit{nil, it.Score})
+		}
+	}
+	return
+}
+
+func lastLines(s string, n int) string {
+	l := strings.Split(strings.TrimSpace(s), "\n")
+	if len(l) > n {
+		l = l[len(l)-n:]
+	}
+	return strings.Join(l, " / ")
 }
